@@ -108,7 +108,13 @@ void harness(void)
 	ASSUME(!valid || nd_p == V_NEW_P);
 #endif
 
+#ifdef V_THEN_DEL
+	/* the arguments are fixed by the assumption above; passing them as constants keeps the level index concrete and the
+	 * handler rescan of qb_loop_signal_mod out of this run (two rescans or a symbolic level index exhaust memory) */
+	int32_t rc = qb_loop_signal_mod(l, V_NEW_P, nd_old_sig, &v_new_tok, verif_new_cb, reg);
+#else
 	int32_t rc = qb_loop_signal_mod(l, (enum qb_loop_priority)nd_p, nd_new_sig, &v_new_tok, nd_have_fn ? verif_new_cb : NULL, nd_have_handle ? reg : NULL);
+#endif
 
 	POST((rc == 0) == valid, "a signal modification is accepted exactly when it names a registration, a callback and a valid priority");
 	POST(oldlev->todo == todo0 && !qb_list_empty(&bystander->list) && (!nd_queued || v_queued_at(oldlev, &clone->item.list)), "modifying a registration queues and unqueues nothing");
